@@ -47,6 +47,8 @@ Print Assumptions C05_rejected_no_effect.
 Theorem C05_self_derived :
   forall cf reqs s d i r u ts' d',
     exec cf reqs s d = (ts', d') -> nth_error reqs i = Some r -> prov_target r = Some u ->
+    (* PUT aggregates below 1.19 is documented as not generation-guarded *)
+    (forall v u' g l, r = AggsSet v u' g l -> 19 <= v) ->
     succeeded ts' i ->
     exists k1 k2 g, (k1 < k2)%nat /\ nth_error s k1 = Some i /\ commits_at cf reqs s d i k2 /\
       gen_of (snd (at_step cf reqs s d k1)) u = Some g /\ gen_of (snd (at_step cf reqs s d k2)) u = Some g.
